@@ -205,4 +205,11 @@ def observe_pop(c, rng):
         fe = extract_feature(pop)
         rows = fe.get("path_length")
         counts = fe.get("node_count")
-    return {"rows": [[q(v) for v in row] for row in rows], "counts": [[q(v) for v in row] for row in counts]}
+        o = {"rows": [[q(v) for v in row] for row in rows], "counts": [[q(v) for v in row] for row in counts], "sholl": 0, "shA": [], "shB": [], "shA2": []}
+        if all(len(tc["P"]) >= 2 for tc in c["trees"]):          # (a one-node tree is rejected by the Sholl analysis; nothing is claimed there)
+            ra = np.array([math.sqrt(1 / 2), math.sqrt(9 / 2)])
+            rb = np.array([math.sqrt(51 / 2), math.sqrt(1 / 2), math.sqrt(9 / 2)])
+            ints = lambda m: [[int(round(float(v))) for v in row] for row in m]
+            o.update(sholl=1, shA=ints(fe.get("sholl", steps=ra)), shB=ints(fe.get("sholl", steps=rb)), shA2=ints(fe.get("sholl", steps=ra)))
+        o["rows2"] = [[q(v) for v in row] for row in fe.get("path_length")]
+    return o
